@@ -1,8 +1,217 @@
-import BrushVerif.Model.Wire
-/-! Driver for C09 (stub until the property's model exists). -/
+import BrushVerif.Model.Env
+/-! Driver for C09: `C09 <op> <op> …` (ops of `Model/Env.lean`, `D` = probe) → one dump per probe,
+joined by ` | `.  A dump is `S=<ok of the last op> <scopes bottom→top> <visible view> <child env> <guard events so far>`. -/
 namespace BrushVerif.Drv.C09
-open BrushVerif.Wire
+open BrushVerif.Wire BrushVerif.Env
 
-def handle (_toks : List Str) : Str := "unimplemented".toList
+def splitC (c : Char) (s : Str) : List Str := splitOnChar c s
+
+def parseKind : Str → Option Kind
+  | ['g'] => some .global
+  | ['l'] => some .loc
+  | ['c'] => some .command
+  | _ => none
+
+def parsePol : Str → Option Policy
+  | ['a'] => some .anywhere
+  | ['g'] => some .onlyGlobal
+  | ['c'] => some .onlyCurrentLocal
+  | ['l'] => some .onlyLocal
+  | _ => none
+
+def parseUpd : Str → Option Updater
+  | ['n'] => some .nop
+  | ['e'] => some .exp
+  | ['u'] => some .unexport
+  | _ => none
+
+def parseItem (s : Str) : Option (Option Str × Str) :=
+  match splitC '=' s with
+  | [k, v] =>
+    match k with
+    | ['-'] => some (none, unesc v)
+    | 'k' :: ks => some (some (unesc ks), unesc v)
+    | _ => none
+  | _ => none
+
+def parseLit : Str → Option Lit
+  | 's' :: r => some (.scalar (unesc r))
+  | ['A'] => some (.array [])
+  | 'A' :: r => ((splitC ',' r).mapM parseItem).map .array
+  | _ => none
+
+def parseOptLit : Str → Option (Option Lit)
+  | ['-'] => some none
+  | s => (parseLit s).map some
+
+def parseKV (s : Str) : Option (Str × Str) :=
+  match splitC '=' s with
+  | [k, v] => some (unesc k, unesc v)
+  | _ => none
+
+def parseValue : Str → Option Value
+  | ['U'] => some (.unset .untyped)
+  | ['U', 'a'] => some (.unset .indexed)
+  | ['U', 'A'] => some (.unset .assoc)
+  | 's' :: r => some (.str (unesc r))
+  | ['I'] => some (.indexed [])
+  | ['M'] => some (.assoc [])
+  | 'I' :: r => ((splitC ';' r).mapM parseKV).map fun kvs =>
+      .indexed (kvs.foldl (fun m (k, v) => insNat ((parseNat? k).getD 0) v m) [])
+  | 'M' :: r => ((splitC ';' r).mapM parseKV).map fun kvs =>
+      .assoc (kvs.foldl (fun m (k, v) => insStr k v m) [])
+  | _ => none
+
+def parseVar (s : Str) : Option Var :=
+  match splitC '~' s with
+  | [ats, v] =>
+    (parseValue v).map fun val =>
+      { value := val, exported := ats.contains 'x', readonly := ats.contains 'r', integer := ats.contains 'i',
+        transform := if ats.contains 'l' then .lower else if ats.contains 'u' then .upper
+                     else if ats.contains 'c' then .cap else .none }
+  | _ => none
+
+def optFlag (fl : Str) (c : Char) : Option Bool :=
+  let rec go : Str → Option Bool
+    | a :: b :: r => if a = c ∧ b = '-' then some true else if a = c ∧ b = '+' then some false else go (b :: r)
+    | _ => none
+  go fl
+
+/-- flags: `a`, `A`, `g` alone; `i l u c x r` followed by `-` (set) or `+` (clear) -/
+def parseFlags (fl : Str) : DeclFlags :=
+  let rec plain : Str → Char → Bool
+    | [], _ => false
+    | [a], c => a = c
+    | a :: b :: r, c => if a = c ∧ b ≠ '-' ∧ b ≠ '+' then true
+                        else if b = '-' ∨ b = '+' then plain r c else plain (b :: r) c
+  { a := plain fl 'a', A := plain fl 'A', g := plain fl 'g',
+    i := optFlag fl 'i', l := optFlag fl 'l', u := optFlag fl 'u', c := optFlag fl 'c',
+    x := optFlag fl 'x', r := optFlag fl 'r' }
+
+def parseVerb : Str → Option Verb
+  | ['d'] => some .declare
+  | ['l'] => some .loc
+  | ['r'] => some .readonly
+  | _ => none
+
+def parseIdx : Str → Option (Option Str)
+  | ['-'] => some none
+  | 'i' :: r => some (some (unesc r))
+  | _ => none
+
+def parseReq : Str → Option (Option Kind)
+  | ['-'] => some none
+  | s => (parseKind s).map some
+
+inductive Tok | op (o : Op) | dump
+
+def parseTok (t : Str) : Option Tok :=
+  match splitC ':' t with
+  | [['D']] => some .dump
+  | [['p', 'u'], k] => (parseKind k).map (.op ∘ .push)
+  | [['p', 'o'], k] => (parseKind k).map (.op ∘ .pop)
+  | [['u', 'n'], n] => some (.op (.unset (unesc n)))
+  | [['u', 'i'], n, i] => some (.op (.unsetIndex (unesc n) (unesc i)))
+  | [['u', 'a'], n, l, u, p, k] => do
+      let l ← parseLit l; let u ← parseUpd u; let p ← parsePol p; let k ← parseKind k
+      pure (.op (.updateOrAdd (unesc n) l u p k))
+  | [['u', 'e'], n, i, v, p, k] => do
+      let p ← parsePol p; let k ← parseKind k
+      pure (.op (.updateOrAddElem (unesc n) (unesc i) (unesc v) p k))
+  | [['a', 'd'], n, v, k] => do
+      let v ← parseVar v; let k ← parseKind k
+      pure (.op (.add (unesc n) v k))
+  | [['a', 's'], n, i, l, fl] => do
+      let i ← parseIdx i; let l ← parseLit l
+      pure (.op (.assign (unesc n) i l (fl.contains 'a')))
+  | [['p', 't'], items] =>
+      ((splitC '&' items).mapM fun it => match splitC '~' it with
+        | [n, l] => (parseLit l).map fun l => (unesc n, l)
+        | _ => none).map (.op ∘ .pushTemp)
+  | [['d', 'e'], n, fl, vb, l, bits] => do
+      let vb ← parseVerb vb; let l ← parseOptLit l
+      pure (.op (.declare (unesc n) (parseFlags fl) vb l (bits.contains 'p') (bits.contains 'n') (bits.contains 'f')))
+  | [['e', 'n'], n, u] => some (.op (.exportName (unesc n) (u = ['u'])))
+  | [['e', 'a'], n, l, fl] => do
+      let l ← parseLit l
+      pure (.op (.exportAssign (unesc n) l (fl.contains 'a') (fl.contains 'u')))
+  | [['d', 'f'], n, v] => some (.op (.assignDefault (unesc n) (unesc v)))
+  | _ => none
+
+/-! rendering -/
+
+def showAttrs (v : Var) : Str :=
+  let s := (if v.exported then ['x'] else []) ++ (if v.readonly then ['r'] else []) ++
+    (if v.integer then ['i'] else []) ++
+    (match v.transform with | .none => [] | .lower => ['l'] | .upper => ['u'] | .cap => ['c'])
+  if s.isEmpty then ['-'] else s
+
+def showValue : Value → Str
+  | .unset .untyped => ['U']
+  | .unset .indexed => ['U', 'a']
+  | .unset .assoc => ['U', 'A']
+  | .str s => 's' :: esc s
+  | .indexed m => 'I' :: joinWith [';'] (m.map fun (k, v) => natToStr k ++ ['='] ++ esc v)
+  | .assoc m => 'M' :: joinWith [';'] (m.map fun (k, v) => esc k ++ ['='] ++ esc v)
+
+def showVar (v : Var) : Str := showAttrs v ++ ['~'] ++ showValue v.value
+
+def insSorted (e : Str × Str) : List (Str × Str) → List (Str × Str)
+  | [] => [e]
+  | e' :: r => if strLt e.1 e'.1 then e :: e' :: r else e' :: insSorted e r
+
+def sortByName (l : List (Str × Str)) : List (Str × Str) := l.foldr insSorted []
+
+def showEntries (l : List (Str × Str)) : Str :=
+  joinWith [','] ((sortByName l).map fun (n, s) => n ++ ['='] ++ s)
+
+def showKind : Kind → Char
+  | .global => 'G'
+  | .loc => 'L'
+  | .command => 'C'
+
+def showScope (s : Scope) : Str :=
+  [showKind s.1, '['] ++ showEntries (s.2.map fun (n, v) => (n, showVar v)) ++ [']']
+
+def names (e : Env) : List Str :=
+  (e.scopes.flatMap fun s => s.2.map (·.1)).eraseDups
+
+def showView (e : Env) : Str :=
+  "V[".toList ++ showEntries ((names e).filterMap fun n =>
+    match e.get n with | some (_, v) => some (n, showVar v) | none => none) ++ [']']
+
+def showChild (e : Env) : Str :=
+  "X[".toList ++ showEntries (e.childEnv.map fun (n, v) => (n, esc v)) ++ [']']
+
+def dump (ok : Bool) (e : Env) : Str :=
+  "S=".toList ++ [if ok then '1' else '0'] ++ [' '] ++
+    joinWith ['/'] (e.scopes.reverse.map showScope) ++ [' '] ++ showView e ++ [' '] ++ showChild e
+
+/-- a failed prefix assignment: `execute_command` returns the error, its `ScopeGuard` pops the command
+scope, and the command itself (builtin body, function body, …) does not run: skip to the matching pop -/
+def skipCmd : Nat → List Tok → List Tok
+  | _, [] => []
+  | d, .op (.push _) :: r => skipCmd (d + 1) r
+  | d, .op (.pushTemp _) :: r => skipCmd (d + 1) r
+  | 0, .op (.pop _) :: r => r
+  | d + 1, .op (.pop _) :: r => skipCmd d r
+  | d, _ :: r => skipCmd d r
+
+def runToksF : Nat → Env → Bool → List Tok → List Str
+  | 0, _, _, _ => []
+  | _, _, _, [] => []
+  | f + 1, e, ok, .dump :: r => dump ok e :: runToksF f e ok r
+  | f + 1, e, _, .op (.pushTemp items) :: r =>
+    let (e', ok') := stepR e (.pushTemp items)
+    if ok' then runToksF f e' true r
+    else runToksF f (e'.pop .command).1 false (skipCmd 0 r)
+  | f + 1, e, _, .op o :: r => let (e', ok') := stepR e o; runToksF f e' ok' r
+
+def runToks (e : Env) (ok : Bool) (l : List Tok) : List Str := runToksF (l.length + 1) e ok l
+
+def handle (toks : List Str) : Str :=
+  match toks.mapM parseTok with
+  | none => "bad-op".toList
+  | some ts => joinWith " | ".toList (runToks Env.init true ts)
 
 end BrushVerif.Drv.C09
